@@ -6,6 +6,18 @@ sys.path.insert(0, os.path.join(V, "engines"))
 import registry
 ids = [json.loads(l)["id"] for l in open(os.path.join(V, "properties.jsonl"))]
 checks, na = [], []
+TECH = {}
+for p_ in ("C01", "C02", "C03", "C04", "C05", "C08", "C09", "C10"):
+    TECH[p_] = ("seqmc", "explicit-state model checking of the implementation: breadth-first closure over API histories (state = history replayed on a fresh object, deduplicated by a canonical state string), reference model and structural invariants checked on every transition")
+for p_ in ("C06", "C07"):
+    TECH[p_] = ("imagemc", "explicit-state model checking of the implementation: breadth-first search over memory images restored at a different address before every transition; map/accounting model, well-formedness invariant and relocation/residue/address differentials on every transition")
+for p_ in ("C11", "C12"):
+    TECH[p_] = ("seqmc+imagemc", "the explicit-state searches of C01-C10 (every reachable state x every operation) with sanitizer, allocation-ledger, guard-zone, uninitialised-stack and ownership oracles evaluated on every transition")
+TECH["C13"] = ("sched", "stateless model checking: exhaustive enumeration of thread schedules up to a preemption bound (real pthreads serialised at the library's lock operations), every execution checked for linearizability by brute force, deadlock and data races (TSan under the same scheduler)")
+for p_ in ("C14", "C15"):
+    TECH[p_] = ("faultenum", "exhaustive enumeration of (state, operation, entry lock depth, allocation-fault position) with a differential oracle against fault-free executions and pthread-level lock-depth tracking")
+for p_ in ("C16", "C17", "C18", "C19", "C20"):
+    TECH[p_] = ("inputmc", "bounded-exhaustive enumeration of inputs / argument tuples / generated documents (complete up to the stated length over the stated alphabet), each executed on the real code and compared with an independent reference or the generator's known meaning; sanitizers and uninitialised-stack oracle")
 for pid in ids:
     s = registry.PROPS.get(pid)
     if not s or not s.get("claim", True):
@@ -17,10 +29,10 @@ for pid in ids:
         "thorough_cmd": "./check %s --tier thorough" % pid,
         "evidence_file": "evidence/%s.json" % pid,
         "replay_cmd_template": "./check %s --replay {path}" % pid,
-        "engine": s.get("engine", ""),
+        "engine": TECH[pid][0],
         "level_claimed": {"category": s["level"], "text": s.get("level_text", s["rule"]), "design_ref": "DESIGN.md section 2, " + pid},
         "level_note": s.get("level_note", "; ".join(s.get("assumptions", [])) or "bounded exhaustive enumeration on the real code; nothing claimed beyond the bounds"),
-        "technique": s.get("technique", ""),
+        "technique": TECH[pid][1],
     })
 hooks = json.load(open(os.path.join(V, "tools", "hooks.json")))
 m = {"version": 1,
